@@ -168,11 +168,20 @@ Proof.
   constructor; [unfold LF, CR; lia|constructor].
 Qed.
 
-Theorem from_sam_layout L : L <> [] -> Forall sam_line_ok L ->
-  from_sam (concat (map lrawL L)) = Some (sam_expected L).
+(* the pipeline on lines with >= 11 columns each (columns may contain CR), carriage-return adjustment left symbolic *)
+Definition sam_pre (L : list (list (list Z))) : ext :=
+  let data := concat (map lrawL L) in
+  let st := map (map fst) (offs_tbl 0 L) in
+  let en := blocksL 0 L in
+  let starts := map (firstn 11) st in
+  let ends := map (firstn 11) (modify_cr_last data en) in
+  {| x_data := data; x_fs := starts; x_fl := zip_with vsub ends starts;
+     x_es := map hd0 starts; x_ee := map (fun r => last0 r + 1) en; x_contig := true |}.
+
+Lemma from_sam_lines L : L <> [] -> Forall line_ok L -> Forall (fun cols : list (list Z) => (11 <= length cols)%nat) L ->
+  from_sam (concat (map lrawL L)) = Some (sam_pre L).
 Proof.
-  intros Hn H.
-  assert (HL : Forall line_ok L) by (eapply Forall_impl; [|exact H]; apply sam_line_line).
+  intros Hn HL H.
   destruct (table_prefix L Hn HL) as (HD & HE & HF & HC). cbv zeta in *.
   unfold from_sam. cbv zeta. rewrite HF, HC. rewrite HE at 1.
   destruct L as [|c L']; [congruence|].
@@ -198,10 +207,18 @@ Proof.
   rewrite Hst, Hen.
   assert (H11 : forallb (fun c0 => 11 <=? c0) (map (fun cols : list (list Z) => len cols) LL) = true).
   { rewrite forallb_forall. intros z Hz. apply in_map_iff in Hz. destruct Hz as (cols & <- & Hin).
-    rewrite Forall_forall in H. destruct (H cols Hin) as (Hk & _). unfold len. apply Z.leb_le. lia. }
-  rewrite H11.
-  unfold LL at 1. change (blocksL 0 (c :: L')) with (delims_rec 0 c :: blocksL (0 + len (lrawL c)) L') at 1. cbv iota.
-  rewrite nthZ_no_cr by (apply no_cr_lines; auto). rewrite andb_false_r. reflexivity.
+    rewrite Forall_forall in H. pose proof (H cols Hin) as Hk. unfold len. apply Z.leb_le. lia. }
+  rewrite H11. reflexivity.
+Qed.
+
+Theorem from_sam_layout L : L <> [] -> Forall sam_line_ok L ->
+  from_sam (concat (map lrawL L)) = Some (sam_expected L).
+Proof.
+  intros Hn H.
+  assert (HL : Forall line_ok L) by (eapply Forall_impl; [|exact H]; apply sam_line_line).
+  rewrite from_sam_lines; auto.
+  - unfold sam_pre, sam_expected. rewrite modify_cr_none by (apply no_cr_lines; auto). reflexivity.
+  - eapply Forall_impl; [|exact H]. intros cols (A & _); auto.
 Qed.
 
 (* ---- in terms of the generator's records ---- *)
@@ -224,8 +241,11 @@ Proof.
   exists (sam_expected L). rewrite Hlay, HV.
   split; [apply from_sam_layout; auto|]. split; [apply Inv_sam_expected; auto|].
   split; [apply view_sam_expected; auto|]. split; [reflexivity|].
-  rewrite view_sam_expected by auto. simpl. unfold width_gt. rewrite Forall_map.
-  eapply Forall_impl; [|exact HL]. intros cols (H11 & _). unfold gvS. cbn [a_rel]. rewrite firstn_length, length_col_offsets. lia.
+  rewrite view_sam_expected by auto. simpl. unfold width_gt. rewrite !Forall_map. split.
+  - eapply Forall_impl; [|exact HL]. intros cols (H11 & _). unfold gvS. cbn [a_rel]. rewrite firstn_length, length_col_offsets. lia.
+  - eapply Forall_impl; [|exact HL]. intros cols (H11 & _). unfold gvS. cbn [a_rec]. rewrite len_lrawL.
+    destruct cols as [|c [|c' r]]; simpl in H11; try lia. rewrite intercalate_cons2, !len_app. change (len [TAB]) with 1.
+    pose proof (len_nonneg c). pose proof (len_nonneg (intercalate [TAB] (c' :: r))). lia.
 Qed.
 
 (* ---- end to end for the tabular formats (BED.., VCF, SAM): programs without replacement ---- *)
